@@ -350,6 +350,13 @@ fn recursion_sets() -> Vec<(String, Vec<(String, String)>)> {
         s("through-block", vec![("w", "{% component T() %}{% include \"page\" %}{% endcomponent T %}"), ("page", "{% block a %}{% block b %}{{ <T/> }}{% endblock %}{% endblock %}")]),
         s("through-set-capture", vec![("w", "{% component S() %}{% set x %}{% include \"pg\" %}{% endset %}{{ x }}{% endcomponent S %}"), ("pg", "{{ <S/> }}")]),
         s("through-filter-section", vec![("w", "{% component S() %}{% filter upper %}{% include \"pg\" %}{% endfilter %}{% endcomponent S %}"), ("pg", "{% set_global g %}{{ <S/> }}{% endset %}{{ g }}")]),
+        // include cycles that pass through inherited blocks (must be rejected at registration, or
+        // at least end in an error value)
+        s("include-cycle-via-middle-block", vec![("root", "<{% block content %}root{% endblock %}>"), ("middle", "{% extends \"root\" %}{% block content %}[{% include \"partial\" %}]{% endblock %}"), ("leaf", "{% extends \"middle\" %}"), ("partial", "p:{% include \"leaf\" %}")]),
+        s("include-cycle-via-root-body", vec![("root", "{% include \"partial\" %}{% block c %}{% endblock %}"), ("leaf", "{% extends \"root\" %}{% block c %}x{% endblock %}"), ("partial", "p:{% include \"leaf\" %}")]),
+        s("include-cycle-via-leaf-block", vec![("root", "{% block c %}{% endblock %}"), ("mid", "{% extends \"root\" %}"), ("leaf", "{% extends \"mid\" %}{% block c %}{% include \"partial\" %}{% endblock %}"), ("partial", "{% include \"leaf\" %}")]),
+        s("include-cycle-via-nested-block", vec![("root", "{% block a %}{% block b %}{% endblock %}{% endblock %}"), ("mid", "{% extends \"root\" %}{% block b %}{% include \"p1\" %}{% endblock %}"), ("leaf", "{% extends \"mid\" %}{% block a %}{{ super() }}{% endblock %}"), ("p1", "{% include \"p2\" %}"), ("p2", "{% include \"leaf\" %}")]),
+        s("include-cycle-via-component-body", vec![("w", "{% component W() %}{{ body }}{% endcomponent W %}"), ("a", "{% <W> %}{% include \"b\" %}{% </W> %}"), ("b", "{% set x %}{% include \"a\" %}{% endset %}{{ x }}")]),
         s("through-kwarg", vec![("w", "{% component S(v = 1) %}{{ v }}{% include \"pg\" %}{% endcomponent S %}"), ("pg", "{{ 1 | default(value=<S v={ 2 }/>) }}{{ <S v={ <S/> }/> }}")]),
     ]
 }
@@ -442,7 +449,7 @@ fn recursion_oracle(o: &mut Oracle) -> (usize, usize, usize, usize) {
             o.meta.oracle_checks += 1;
             match run_child(&t) {
                 Err(how) => o.meta.oracle_fail(
-                    &format!("unbounded recursion through components is not stopped by the depth guard: {how}"),
+                    &format!("a recursive program is not stopped (component depth guard / include-cycle rejection): {how}"),
                     None,
                     json!({"case": label, "set": set, "target": {"render": t["render"], "block": t.get("block"), "component": t.get("component")}}),
                 ),
@@ -459,6 +466,545 @@ fn recursion_oracle(o: &mut Oracle) -> (usize, usize, usize, usize) {
         }
     }
     (n, errs, texts, rejected)
+}
+
+
+// ------------------------------------------------------------------ error-position matrix
+
+/// Every expression form that produces a value (several kinds of result each) ...
+fn epm_producers() -> Vec<(&'static str, &'static str)> {
+    vec![
+        // literals
+        ("lit:str", "\"lit\""), ("lit:int", "1"), ("lit:float", "1.5"), ("lit:bool", "true"), ("lit:none", "none"),
+        ("lit:array", "[1, \"b\"]"), ("lit:map", "{\"a\": 1}"), ("lit:empty-array", "[]"),
+        // variables and paths
+        ("var:str", "s"), ("var:int", "n"), ("var:arr", "arr"), ("var:map", "m"), ("var:undef", "u"), ("var:none", "nn"),
+        ("var:bool", "b"), ("var:float", "f"), ("var:bytes", "by"),
+        ("path", "m.k"), ("path:int", "m.a"), ("path:missing-last", "m.zz"), ("path:deep", "d.x.y"), ("path:deep-arr", "d.x.l"),
+        // subscripts
+        ("sub:arr", "arr[0]"), ("sub:str", "s[0]"), ("sub:map", "m[\"k\"]"), ("sub:out-of-range", "arr[9]"), ("sub:neg", "arr[-1]"),
+        ("sub:var-index", "arr[i]"), ("sub:nested", "d.x.l[1]"), ("sub:sub", "aa[0][1]"),
+        // slices: every combination of present / absent operands
+        ("slice:a:", "s[1:]"), ("slice::b", "s[:2]"), ("slice:a:b", "s[1:3]"), ("slice:::c", "s[::2]"), ("slice:a::c", "s[1::1]"),
+        ("slice::b:c", "s[:3:2]"), ("slice:a:b:c", "s[0:3:1]"), ("slice:::", "s[:]"), ("slice:neg-step", "s[::-1]"),
+        ("slice:arr:a:", "arr[1:]"), ("slice:arr::b", "arr[:2]"), ("slice:arr:a:b:c", "arr[0:2:1]"), ("slice:var-a", "s[i:]"),
+        ("slice:var-b", "s[:j]"), ("slice:var-c", "s[::j]"), ("slice:of-slice", "s[1:][1:]"), ("slice:of-concat", "(s ~ \"x\")[1:]"),
+        ("slice:then-sub", "arr[1:][0]"), ("slice:paren", "(s[1:])"), ("slice:path", "d.x.l[1:]"),
+        // optional chaining
+        ("opt:attr", "m?.k"), ("opt:attr-undef", "u?.x"), ("opt:attr-missing", "m?.zz"), ("opt:sub-undef", "u?[0]"), ("opt:sub", "arr?[0]"),
+        ("opt:slice", "s?[1:]"), ("opt:slice-undef", "u?[1:]"), ("opt:chain", "d?.x?.y"),
+        // unary / binary results
+        ("un:not", "not s"), ("un:neg", "-n"), ("un:neg-float", "-f"),
+        ("bin:+", "n + 1"), ("bin:-", "n - 1"), ("bin:*", "n * 2"), ("bin:/", "n / 2"), ("bin://", "n // 2"), ("bin:%", "n % 2"), ("bin:**", "n ** 2"),
+        ("bin:<", "n < 2"), ("bin:==", "n == 2"), ("bin:!=", "s != \"x\""), ("bin:in", "n in arr"), ("bin:not-in", "n not in arr"),
+        ("concat", "s ~ n"), ("concat:lit", "\"a\" ~ \"b\""), ("concat:chain", "s ~ \"-\" ~ s"),
+        // ternary, and / or
+        ("ternary:str", "s if b else n"), ("ternary:int", "n if b else s"), ("ternary:else", "s if not b else n"), ("ternary:slice", "s[1:] if b else s[:1]"),
+        ("or:first", "s or n"), ("or:second", "u or s"), ("or:slice", "nn or s[1:]"), ("and:second", "n and s"), ("and:first", "nn and n"), ("and:slice", "n and s[:2]"),
+        // filters, functions, tests
+        ("filter:upper", "s | upper"), ("filter:length", "arr | length"), ("filter:first", "arr | first"), ("filter:default", "u | default(value=1)"),
+        ("filter:join", "arr | join(sep=\",\")"), ("filter:chain", "s | upper | trim"), ("filter:on-slice", "s[1:] | upper"), ("filter:safe", "s | safe"),
+        ("fn:range", "range(end=3)"), ("test:string", "s is string"), ("test:odd", "n is odd"), ("test:not", "s is not defined"),
+        // containers built in place
+        ("comp", "[x for x in arr]"), ("comp:cond", "[x ~ \"a\" for x in arr if x]"), ("comp:kv", "[v for k, v in m]"),
+        ("spread:array", "[...arr, 1]"), ("spread:map", "{...m, \"z\": 1}"), ("map:nested", "{\"k\": {\"j\": s[1:]} }"),
+        // component calls
+        ("component", "<cx v={ 1 }/>"), ("component:arg-slice", "<cx v={ s[1:] }/>"),
+        ("paren", "(s)"), ("paren:bin", "(n + 1)"),
+    ]
+}
+
+/// ... in every position where a consumer can fail with a rendering error that carries a span.
+/// `@` is the hole.
+fn epm_consumers() -> Vec<(&'static str, String)> {
+    let mut v: Vec<(&'static str, String)> = Vec::new();
+    for op in ["+", "-", "*", "/", "//", "%", "**"] {
+        v.push(("arith:left", format!("{{{{ @ {op} 1 }}}}")));
+        v.push(("arith:right", format!("{{{{ 1 {op} @ }}}}")));
+        v.push(("arith:right-of-str", format!("{{{{ s {op} @ }}}}")));
+        v.push(("arith:both", format!("{{{{ @ {op} @ }}}}")));
+        v.push(("arith:nested", format!("{{{{ (2 {op} @) {op} (@ {op} 2) }}}}")));
+    }
+    for op in ["<", ">", "<=", ">="] {
+        v.push(("cmp:left", format!("{{{{ @ {op} 1 }}}}")));
+        v.push(("cmp:right", format!("{{{{ 1 {op} @ }}}}")));
+        v.push(("cmp:vs-str", format!("{{{{ @ {op} \"a\" }}}}")));
+        v.push(("cmp:vs-array", format!("{{{{ [1] {op} @ }}}}")));
+    }
+    let fixed: Vec<(&'static str, &'static str)> = vec![
+        ("in:container", "{{ 1 in @ }}"), ("in:needle", "{{ @ in 5 }}"), ("in:needle-arr", "{{ @ in arr }}"), ("in:map", "{{ @ in m }}"),
+        ("neg", "{{ -@ }}"), ("neg:paren", "{{ -(@) }}"),
+        ("sub:base", "{{ @[0] }}"), ("sub:base-str-key", "{{ @[\"k\"] }}"), ("sub:index", "{{ arr[@] }}"), ("sub:index-map", "{{ m[@] }}"),
+        ("sub:index-str", "{{ s[@] }}"), ("sub:opt-index", "{{ arr?[@] }}"), ("attr", "{{ @.attr }}"), ("attr:deep", "{{ @.a.b }}"),
+        ("slice:base", "{{ @[1:] }}"), ("slice:start", "{{ s[@:] }}"), ("slice:end", "{{ s[:@] }}"), ("slice:step", "{{ s[::@] }}"),
+        ("slice:step-full", "{{ s[1:2:@] }}"), ("slice:all", "{{ @[@:@:@] }}"), ("slice:opt-base", "{{ @?[1:] }}"),
+        ("filter:round", "{{ @ | round }}"), ("filter:upper", "{{ @ | upper }}"), ("filter:length", "{{ @ | length }}"), ("filter:first", "{{ @ | first }}"),
+        ("filter:abs", "{{ @ | abs }}"), ("filter:join", "{{ @ | join }}"), ("filter:int", "{{ @ | int }}"), ("filter:keys", "{{ @ | keys }}"),
+        ("filter:sort", "{{ @ | sort }}"), ("filter:get", "{{ @ | get(key=\"a\") }}"), ("filter:trim", "{{ @ | trim }}"), ("filter:reverse", "{{ @ | reverse }}"),
+        ("filter:pluralize", "{{ @ | pluralize }}"), ("filter:title", "{{ @ | title }}"), ("filter:chain", "{{ @ | upper | round }}"),
+        ("kwarg:truncate.length", "{{ s | truncate(length=@) }}"), ("kwarg:join.sep", "{{ arr | join(sep=@) }}"), ("kwarg:replace.from", "{{ s | replace(from=@, to=\"x\") }}"),
+        ("kwarg:round.precision", "{{ f | round(precision=@) }}"), ("kwarg:round.method", "{{ f | round(method=@) }}"), ("kwarg:default.boolean", "{{ s | default(value=1, boolean=@) }}"),
+        ("kwarg:nth.n", "{{ arr | nth(n=@) }}"), ("kwarg:split.pat", "{{ s | split(pat=@) }}"), ("kwarg:indent.width", "{{ s | indent(width=@) }}"),
+        ("kwarg:get.key", "{{ m | get(key=@) }}"), ("kwarg:int.base", "{{ s | int(base=@) }}"), ("kwarg:sort.attribute", "{{ aa | sort(attribute=@) }}"),
+        ("kwarg:of-kwarg", "{{ s | default(value=s | truncate(length=@)) }}"),
+        ("test:odd", "{{ @ is odd }}"), ("test:divisible.input", "{{ @ is divisible_by(divisor=2) }}"), ("test:divisible.divisor", "{{ n is divisible_by(divisor=@) }}"),
+        ("test:starting.input", "{{ @ is starting_with(pat=\"a\") }}"), ("test:starting.pat", "{{ s is starting_with(pat=@) }}"), ("test:containing", "{{ @ is containing(pat=1) }}"),
+        ("test:containing.pat", "{{ arr is containing(pat=@) }}"), ("test:not-even", "{{ @ is not even }}"),
+        ("fn:range.end", "{{ range(end=@) }}"), ("fn:range.start", "{{ range(start=@, end=3) }}"), ("fn:range.step", "{{ range(end=3, step_by=@) }}"),
+        ("fn:throw", "{{ throw(message=@) }}"),
+        ("for:iterable", "{% for x in @ %}{{ x }}{% endfor %}"), ("for:kv", "{% for k, v in @ %}{{ k }}{% endfor %}"), ("for:in-else", "{% for x in [] %}{% else %}{% for y in @ %}{% endfor %}{% endfor %}"),
+        ("comp:iterable", "{{ [x for x in @] }}"), ("comp:kv", "{{ [x for k, x in @] }}"), ("comp:element", "{{ [1 + @ for x in arr] }}"), ("comp:cond", "{{ [x for x in arr if -@] }}"),
+        ("spread:array", "{{ [...@] }}"), ("spread:map", "{{ {...@} }}"), ("spread:component", "{{ <cx {...@}/> }}"),
+        ("component:int", "{{ <typed n={ @ }/> }}"), ("component:string", "{{ <typed2 s={ @ }/> }}"), ("component:map", "{{ <typed3 m={ @ }/> }}"),
+        ("component:array", "{{ <typed4 l={ @ }/> }}"), ("component:body-call", "{% <typed n={ @ }> %}x{% </typed> %}"), ("component:missing-arg", "{{ <typed other={ @ }/> }}"),
+        ("print", "{{ @ }}"), ("print:set", "{% set q = @ %}{{ q }}"), ("print:concat", "{{ @ ~ \"\" }}"), ("print:in-capture", "{% set q %}{{ @ }}{% endset %}{{ q }}"),
+        ("print:in-filter-section", "{% filter upper %}{{ @ }}{% endfilter %}"), ("map-key", "{{ {\"k\": 1}[@] }}"), ("map-build", "{{ {\"k\": @}.k.z.w }}"),
+        ("ternary:cond", "{{ 1 if -@ else 2 }}"), ("ternary:branch", "{{ (@ if b else @) + 1 }}"), ("or:then-arith", "{{ (nn or @) + 1 }}"), ("and:then-arith", "{{ (n and @) * 2 }}"),
+        ("if:cond", "{% if @ + 1 %}x{% endif %}"), ("elif:cond", "{% if false %}{% elif @ < 1 %}x{% endif %}"),
+        ("set-block-chain", "{% set q | round %}{{ @ }}{% endset %}{{ q }}"), ("filter-section-kwarg", "{% filter truncate(length=@) %}abc{% endfilter %}"),
+        ("in-component-body", "{% <cx> %}{{ 1 + @ }}{% </cx> %}"), ("in-include", "{% include \"inc_epm\" %}{{ 1 + @ }}"),
+    ];
+    for (l, t) in fixed {
+        v.push((l, t.to_string()));
+    }
+    v
+}
+
+fn epm_contexts() -> Vec<(&'static str, Context)> {
+    let deep = m(vec![("x", m(vec![("y", Value::from("deep")), ("l", Value::from(vec![Value::from(1u64), Value::from("two"), Value::from(3u64)]))]))]);
+    let aa = Value::from(vec![Value::from(vec![Value::from(1u64), Value::from("a")]), Value::from(vec![Value::from(2u64), Value::from("b")])]);
+    let mut std_ctx = Context::new();
+    std_ctx.insert_value("s", Value::from("hello"));
+    std_ctx.insert_value("n", Value::from(3u64));
+    std_ctx.insert_value("f", Value::from(1.5f64));
+    std_ctx.insert_value("b", Value::from(true));
+    std_ctx.insert_value("nn", Value::none());
+    std_ctx.insert_value("by", Value::bytes(vec![0xffu8, 0x61]));
+    std_ctx.insert_value("i", Value::from(1u64));
+    std_ctx.insert_value("j", Value::from(2u64));
+    std_ctx.insert_value("arr", Value::from(vec![Value::from(1u64), Value::from("two"), Value::from(3u64)]));
+    std_ctx.insert_value("m", m(vec![("k", Value::from("v")), ("a", Value::from(1u64))]));
+    std_ctx.insert_value("d", deep.clone());
+    std_ctx.insert_value("aa", aa.clone());
+    // the same names bound to other kinds: what was a string is an array, numbers are strings ...
+    let mut swapped = Context::new();
+    swapped.insert_value("s", Value::from(vec![Value::from("h"), Value::from(1u64), Value::from("l")]));
+    swapped.insert_value("n", Value::from("7"));
+    swapped.insert_value("f", Value::from(i128::MIN));
+    swapped.insert_value("b", Value::from(false));
+    swapped.insert_value("nn", Value::from(0u64));
+    swapped.insert_value("by", Value::from("bytes"));
+    swapped.insert_value("i", Value::from("1"));
+    swapped.insert_value("j", Value::from(-1i64));
+    swapped.insert_value("arr", Value::from("abc"));
+    swapped.insert_value("m", Value::from(vec![m(vec![("k", Value::from(1u64))])]));
+    swapped.insert_value("d", m(vec![("x", Value::none())]));
+    swapped.insert_value("aa", m(vec![("z", Value::from(1u64))]));
+    // numbers everywhere (arithmetic succeeds, string consumers fail), and nothing bound at all
+    let mut nums = Context::new();
+    for k in ["s", "n", "f", "b", "nn", "by", "i", "j", "arr", "m", "d", "aa"] {
+        nums.insert_value(k, Value::from(2u64));
+    }
+    vec![("standard", std_ctx), ("swapped-kinds", swapped), ("all-numbers", nums), ("unbound", Context::new())]
+}
+
+/// (cells, errors, texts). An error must also survive being displayed.
+fn error_position_matrix(o: &mut Oracle, thorough: bool) -> (usize, usize, usize, usize) {
+    let mut tera = Tera::default();
+    tera.autoescape_on(vec![".html"]);
+    let lib = "{% component cx(v = 1, ...rest) %}{{ v }}{{ body }}{% endcomponent cx %}\
+               {% component typed(n: integer) %}{{ n }}{{ body }}{% endcomponent typed %}\
+               {% component typed2(s: string) %}{{ s }}{% endcomponent typed2 %}\
+               {% component typed3(m: map) %}{{ m }}{% endcomponent typed3 %}\
+               {% component typed4(l: array) %}{{ l }}{% endcomponent typed4 %}";
+    o.meta.oracle_checks += 1;
+    if let Err(e) = tera.add_raw_templates(vec![("lib_epm", lib), ("inc_epm", "i")]) {
+        o.meta.oracle_fail("the error-position matrix library was rejected", None, json!({"error": format!("{e}")}));
+        return (0, 0, 0, 0);
+    }
+    let producers = epm_producers();
+    let consumers = epm_consumers();
+    let contexts = epm_contexts();
+    let (mut cells, mut errs, mut texts, mut rejected) = (0usize, 0usize, 0usize, 0usize);
+    for (ci, (cl, ct)) in consumers.iter().enumerate() {
+        for (pi, (pl, pe)) in producers.iter().enumerate() {
+            let src = ct.replace('@', pe);
+            for (xi, (xl, ctx)) in contexts.iter().enumerate() {
+                if !thorough && xi >= 2 && (ci + pi) % 3 != 0 {
+                    continue;
+                }
+                for ae in [false, true] {
+                    if ae && (thorough == false) && (ci + pi + xi) % 4 != 0 {
+                        continue;
+                    }
+                    cells += 1;
+                    let r = guarded(|| tera.render_str(&src, ctx, ae));
+                    // the error must display: report rendering walks spans and sources too
+                    let r = match r {
+                        Outcome::Err(c, msg) => {
+                            errs += 1;
+                            if msg.contains("Found") && msg.contains("expected") || c == "syntax" {
+                                rejected += 1;
+                            }
+                            let shown = std::panic::catch_unwind(std::panic::AssertUnwindSafe(|| {
+                                match tera.render_str(&src, ctx, ae) {
+                                    Err(e) => {
+                                        let mut n = format!("{e}").len() + format!("{e:?}").len() + format!("{e:#?}").len();
+                                        let mut cur: Option<&(dyn std::error::Error + 'static)> = std::error::Error::source(&e);
+                                        while let Some(x) = cur {
+                                            n += format!("{x}{x:?}").len();
+                                            cur = x.source();
+                                        }
+                                        n
+                                    }
+                                    Ok(_) => 0,
+                                }
+                            }));
+                            match shown {
+                                Ok(_) => Outcome::Err(c, msg),
+                                Err(_) => Outcome::Panic("panic while formatting the rendering error (Display / Debug / source chain)".into()),
+                            }
+                        }
+                        other => {
+                            if matches!(other, Outcome::Ok(_)) {
+                                texts += 1;
+                            }
+                            other
+                        }
+                    };
+                    o.check(&r, None, || json!({"matrix": "error-position", "template": src, "producer": pl, "consumer": cl, "context": xl, "autoescape": ae}));
+                }
+            }
+        }
+    }
+    (cells, errs, texts, rejected)
+}
+
+// ------------------------------------------------------------------ engines with a history
+
+struct Hist {
+    steps: Vec<(String, Vec<(String, String)>)>,
+}
+
+fn hist_variants() -> Vec<(&'static str, Vec<(&'static str, &'static str)>)> {
+    vec![
+        ("lib.html", vec![
+            ("L0", "{% component Button(label) %}<b>{{ label }}</b>{% endcomponent Button %}{% component Card(title = \"t\") %}[{{ <Button label={ title }/> }}{{ body }}]{% endcomponent Card %}"),
+            ("L1", "{% component Button(label) %}<i>{{ label }}</i>{% endcomponent Button %}"),
+            ("L2", "no component here anymore"),
+            ("L3", "{% component Button(label, kind: string = \"x\") %}<u>{{ label }}{{ kind }}</u>{% endcomponent Button %}{% component Card(title = \"t\") %}({{ title }}{{ body }}){% endcomponent Card %}"),
+            ("L4", "{% component Button(label) %}<b>{{ label }}</b>{% endcomponent Button %}{% component Card(title = \"t\") %}[{{ title }}]{% endcomponent Card %}{% component Extra() %}E{{ <Card/> }}{% endcomponent Extra %}"),
+        ]),
+        ("lib2.html", vec![
+            ("M0", "{% component Extra() %}x{{ <Button label=\"in-extra\"/> }}{% endcomponent Extra %}"),
+            ("M1", "{% component Badge(n: integer = 1) %}#{{ n }}{% endcomponent Badge %}"),
+            ("M2", "{% component Button(label) %}duplicate{% endcomponent Button %}"),
+        ]),
+        ("page.html", vec![
+            ("P0", "{{ <Button label=\"ok\"/> }}{% <Card title=\"c\"> %}body{% </Card> %}{% include \"partial.html\" %}"),
+            ("P1", "{{ <Button label=\"ok\"/> }}"),
+            ("P2", "plain {{ title | default(value=\"t\") }}"),
+            ("P3", "{{ <Extra/> }}{{ <Button label=\"p3\"/> }}"),
+            ("P4", "{{ <Badge n={2}/> }}"),
+        ]),
+        ("base.html", vec![
+            ("B0", "<{% block head %}h0{% endblock %}|{% block body %}b0{{ <Button label=\"base\"/> }}{% endblock %}>"),
+            ("B1", "<{% block body %}only-body{% endblock %}>"),
+            ("B2", "{% extends \"root.html\" %}{% block body %}mid{{ super() }}{% endblock %}"),
+        ]),
+        ("root.html", vec![("R0", "R{% block body %}r{% endblock %}{% block head %}rh{% endblock %}")]),
+        ("child.html", vec![
+            ("C0", "{% extends \"base.html\" %}{% block head %}c{{ super() }}{% endblock %}"),
+            ("C1", "{% extends \"base.html\" %}{% block body %}{{ super() }}{% <Card> %}in-child{% </Card> %}{% endblock %}"),
+        ]),
+        ("partial.html", vec![
+            ("Q0", "partial"),
+            ("Q1", "p:{% include \"page.html\" %}"),
+            ("Q2", "p:{{ <Button label=\"from-partial\"/> }}"),
+        ]),
+    ]
+}
+
+fn hist_bad() -> Vec<(&'static str, &'static str)> {
+    vec![
+        ("unknown-filter", "{{ 1 | nope_f }}"),
+        ("unknown-test", "{% if 1 is nope_t %}{% endif %}"),
+        ("unknown-function", "{{ nope_fn() }}"),
+        ("unknown-component", "{{ <Nope/> }}"),
+        ("unknown-component-in-definition", "{% component Holder() %}{{ <Nope/> }}{% endcomponent Holder %}"),
+        ("unknown-include", "{% include \"nope.html\" %}"),
+        ("missing-parent", "{% extends \"nope.html\" %}"),
+        ("self-parent", "{% extends \"bad.html\" %}"),
+        ("block-not-in-parent", "{% extends \"base.html\" %}{% block zzz %}{{ super() }}{% endblock %}"),
+        ("syntax", "{% if %}"),
+        ("unknown-filter-with-new-component", "{% component Fresh() %}fresh{% endcomponent Fresh %}{{ 1 | nope_f }}"),
+        ("include-cycle", "{% include \"bad.html\" %}"),
+    ]
+}
+
+const HIST_COMPONENTS: [&str; 8] = ["Button", "Card", "Extra", "Badge", "Fresh", "Holder", "Nope", "cx"];
+
+/// render everything the engine has, through every API. `mark` is called before each call (so a
+/// process death can be attributed), `report` after it.
+fn hist_render_all(
+    tera: &Tera,
+    mark: &mut dyn FnMut(&str, &str),
+    report: &mut dyn FnMut(&str, &str, &Outcome<String>),
+) {
+    let mut ctx = Context::new();
+    ctx.insert_value("title", Value::from("T"));
+    let names: Vec<String> = tera.get_template_names().map(|s| s.to_string()).collect();
+    for n in &names {
+        mark("render", n);
+        let r = guarded(|| tera.render(n, &ctx));
+        report("render", n, &r);
+        mark("render_to", n);
+        let mut out = Vec::new();
+        let r = guarded(|| tera.render_to(n, &ctx, &mut out).map(|_| String::new()));
+        report("render_to", n, &r);
+        let lineage = std::panic::catch_unwind(std::panic::AssertUnwindSafe(|| template_listing(tera, n)));
+        if let Ok(Some(tl)) = lineage {
+            for (b, _) in &tl.lineage {
+                let t = format!("{n}#{b}");
+                mark("render_block", &t);
+                let r = guarded(|| tera.render_block(n, b, &ctx));
+                report("render_block", &t, &r);
+            }
+        }
+    }
+    for c in HIST_COMPONENTS {
+        for body in [None, Some("b")] {
+            let mut cctx = Context::new();
+            cctx.insert_value("label", Value::from("L"));
+            mark("render_component", c);
+            let r = guarded(|| tera.render_component(c, &cctx, body, true));
+            report("render_component", c, &r);
+        }
+        let src = format!("{{{{ <{c} label=\"s\"/> }}}}");
+        mark("render_str", &src);
+        let r = guarded(|| tera.render_str(&src, &ctx, true));
+        report("render_str", &src, &r);
+        mark("get_component_definition", c);
+        let r = guarded(|| Ok::<String, tera::Error>(format!("{:?}", tera.get_component_definition(c).is_some())));
+        report("get_component_definition", c, &r);
+    }
+}
+
+/// `c07 --child-hist <file-in> <file-out> <from>`: runs the histories of <file-in> from index
+/// <from>, appending one JSON line per event to <file-out>
+fn child_hist_main(file_in: &str, file_out: &str, from: usize) {
+    use std::io::Write;
+    let hists: Vec<Vec<(String, Vec<(String, String)>)>> =
+        serde_json::from_str(&std::fs::read_to_string(file_in).expect("hist in")).expect("hist json");
+    let mut out = std::fs::OpenOptions::new().create(true).append(true).open(file_out).expect("hist out");
+    for (hi, steps) in hists.iter().enumerate().skip(from) {
+        let mut tera = Tera::default();
+        tera.autoescape_on(vec![".html"]);
+        let (mut acc, mut rej, mut renders, mut texts, mut errs) = (0usize, 0usize, 0usize, 0usize, 0usize);
+        for (k, (_label, batch)) in steps.iter().enumerate() {
+            writeln!(out, "{}", json!({"h": hi, "k": k, "api": "add_raw_templates", "t": ""})).ok();
+            let r = guarded(|| tera.add_raw_templates(batch.clone()));
+            let after = match &r {
+                Outcome::Ok(()) => { acc += 1; "accepted".to_string() }
+                Outcome::Err(_, msg) => { rej += 1; format!("rejected: {}", msg.lines().next().unwrap_or("")) }
+                Outcome::Panic(msg) => {
+                    writeln!(out, "{}", json!({"h": hi, "k": k, "fail": format!("add_raw_templates panicked: {msg}"), "api": "add_raw_templates", "t": "", "after": ""})).ok();
+                    "panicked".to_string()
+                }
+            };
+            let mut out_m = out.try_clone().expect("clone");
+            let mut out_r = out.try_clone().expect("clone");
+            let mut mark = |api: &str, t: &str| {
+                writeln!(out_m, "{}", json!({"h": hi, "k": k, "api": api, "t": t})).ok();
+            };
+            let mut report = |api: &str, t: &str, r: &Outcome<String>| {
+                renders += 1;
+                match r {
+                    Outcome::Ok(s) => {
+                        texts += 1;
+                        if std::str::from_utf8(s.as_bytes()).is_err() {
+                            writeln!(out_r, "{}", json!({"h": hi, "k": k, "fail": "rendered text is not valid UTF-8", "api": api, "t": t, "after": after})).ok();
+                        }
+                    }
+                    Outcome::Err(..) => errs += 1,
+                    Outcome::Panic(msg) => {
+                        writeln!(out_r, "{}", json!({"h": hi, "k": k, "fail": format!("panic: {msg}"), "api": api, "t": t, "after": after})).ok();
+                    }
+                }
+            };
+            hist_render_all(&tera, &mut mark, &mut report);
+        }
+        writeln!(out, "{}", json!({"done": hi, "acc": acc, "rej": rej, "renders": renders, "texts": texts, "errs": errs})).ok();
+    }
+}
+
+/// (histories, accepted batches, rejected batches)
+fn history_oracle(o: &mut Oracle, rng: &mut Rng, thorough: bool) -> (usize, usize, usize) {
+    let variants = hist_variants();
+    let bad = hist_bad();
+    let pick = |name: &str, v: &str| -> (String, String) {
+        let (_, vs) = variants.iter().find(|(n, _)| *n == name).unwrap();
+        let (_, src) = vs.iter().find(|(l, _)| *l == v).unwrap();
+        (name.to_string(), src.to_string())
+    };
+    let base: Vec<(String, String)> = vec![
+        pick("lib.html", "L0"), pick("page.html", "P0"), pick("base.html", "B0"), pick("child.html", "C0"), pick("partial.html", "Q0"), pick("root.html", "R0"),
+    ];
+    let mut hists: Vec<Hist> = Vec::new();
+    // systematic: every rejection reason x every shape of batch, from the accepted base set
+    for (reason, badsrc) in &bad {
+        let b = |name: &str| (name.to_string(), badsrc.to_string());
+        let shapes: Vec<(&str, Vec<(String, String)>)> = vec![
+            ("bad-alone", vec![b("bad.html")]),
+            ("replaces-page", vec![b("page.html")]),
+            ("lib-loses-components+bad", vec![pick("lib.html", "L2"), pick("page.html", "P2"), b("bad.html")]),
+            ("lib-changes-components+bad", vec![pick("lib.html", "L3"), b("bad.html")]),
+            ("lib-gains-component+bad", vec![pick("lib.html", "L4"), pick("page.html", "P3"), b("bad.html")]),
+            ("new-lib+bad", vec![pick("lib2.html", "M0"), pick("page.html", "P3"), b("bad.html")]),
+            ("new-lib-last", vec![b("bad.html"), pick("lib2.html", "M1"), pick("page.html", "P4")]),
+            ("repeated-name:bad-draft-then-good", vec![b("page.html"), pick("page.html", "P1"), b("bad.html")]),
+            ("repeated-name:good-then-bad", vec![pick("page.html", "P1"), b("page.html")]),
+            ("repeated-lib", vec![pick("lib.html", "L2"), pick("lib.html", "L4"), b("bad.html")]),
+            ("parent-replaced+bad", vec![pick("base.html", "B1"), b("bad.html")]),
+            ("parent-gets-parent+bad", vec![pick("base.html", "B2"), b("bad.html")]),
+        ];
+        for (shape, batch) in shapes {
+            hists.push(Hist { steps: vec![("base".into(), base.clone()), (format!("{reason}/{shape}"), batch.clone())] });
+            // ... and once more followed by a good update, then the same bad batch again
+            hists.push(Hist {
+                steps: vec![
+                    ("base".into(), base.clone()),
+                    (format!("{reason}/{shape}"), batch.clone()),
+                    ("good-update".into(), vec![pick("lib.html", "L3"), pick("page.html", "P1")]),
+                    (format!("{reason}/{shape}/again"), batch),
+                ],
+            });
+        }
+    }
+    // rejected by the set itself (no bad template): removing what others need
+    for (label, batch) in [
+        ("lib-loses-Button", vec![pick("lib.html", "L2")]),
+        ("lib-loses-Card", vec![pick("lib.html", "L1")]),
+        ("duplicate-component", vec![pick("lib2.html", "M2")]),
+        ("parent-loses-block", vec![pick("base.html", "B1")]),
+        ("partial-closes-include-cycle", vec![pick("partial.html", "Q1")]),
+        ("page-needs-missing-component", vec![pick("page.html", "P3")]),
+        ("lib-loses-Button-but-page-updated", vec![pick("lib.html", "L2"), pick("page.html", "P2")]),
+    ] {
+        hists.push(Hist { steps: vec![("base".into(), base.clone()), (label.into(), batch.clone())] });
+        hists.push(Hist { steps: vec![("base".into(), base.clone()), (label.into(), batch.clone()), ("base-again".into(), base.clone()), (format!("{label}/again"), batch)] });
+    }
+    // random histories over the variant pool
+    let n_rand = if thorough { 1500 } else { 150 };
+    for _ in 0..n_rand {
+        let mut steps = vec![("base".to_string(), base.clone())];
+        let n_steps = 1 + rng.below(4);
+        for k in 0..n_steps {
+            let mut batch: Vec<(String, String)> = Vec::new();
+            let n_t = 1 + rng.below(3);
+            for _ in 0..n_t {
+                let (name, vs) = &variants[rng.below(variants.len())];
+                let (_, src) = &vs[rng.below(vs.len())];
+                batch.push((name.to_string(), src.to_string()));
+            }
+            if rng.chance(1, 2) {
+                let (_, badsrc) = &bad[rng.below(bad.len())];
+                let target = if rng.chance(1, 3) { variants[rng.below(variants.len())].0.to_string() } else { "bad.html".to_string() };
+                let at = rng.below(batch.len() + 1);
+                batch.insert(at, (target, badsrc.to_string()));
+            }
+            if rng.chance(1, 4) && !batch.is_empty() {
+                let dup = batch[rng.below(batch.len())].clone();
+                batch.push(dup);
+            }
+            steps.push((format!("random#{k}"), batch));
+        }
+        hists.push(Hist { steps });
+    }
+    // run them in child processes: a history can leave the engine in a state whose rendering
+    // recurses without bound, and that must be observed, not suffered
+    let n = hists.len();
+    let dir = std::env::temp_dir().join(format!("c07_hist_{}", std::process::id()));
+    std::fs::create_dir_all(&dir).ok();
+    let file_in = dir.join("in.json");
+    let all: Vec<&Vec<(String, Vec<(String, String)>)>> = hists.iter().map(|h| &h.steps).collect();
+    std::fs::write(&file_in, serde_json::to_string(&all).unwrap()).expect("hist in");
+    let exe = std::env::current_exe().unwrap();
+    let (mut acc, mut rej) = (0usize, 0usize);
+    let hist_json = |hi: usize, k: usize| json!(hists[hi].steps.iter().take(k + 1).map(|(l, b)| json!({"step": l, "add_raw_templates": b})).collect::<Vec<_>>());
+    let mut from = 0usize;
+    let mut round = 0usize;
+    while from < n && round < 60 {
+        round += 1;
+        let file_out = dir.join(format!("out_{round}.jsonl"));
+        let mut ch = std::process::Command::new(&exe)
+            .arg("--child-hist").arg(&file_in).arg(&file_out).arg(from.to_string())
+            .stdin(std::process::Stdio::null()).stdout(std::process::Stdio::null()).stderr(std::process::Stdio::null())
+            .spawn().expect("spawn hist child");
+        let t0 = std::time::Instant::now();
+        let status = loop {
+            match ch.try_wait().unwrap() {
+                Some(st) => break Some(st),
+                None => {
+                    if t0.elapsed().as_secs() > 300 {
+                        ch.kill().ok();
+                        ch.wait().ok();
+                        break None;
+                    }
+                    std::thread::sleep(std::time::Duration::from_millis(10));
+                }
+            }
+        };
+        let text = std::fs::read_to_string(&file_out).unwrap_or_default();
+        let mut last_mark: Option<serde_json::Value> = None;
+        let mut last_done: Option<usize> = None;
+        for line in text.lines() {
+            let Ok(j) = serde_json::from_str::<serde_json::Value>(line) else { continue };
+            if let Some(d) = j.get("done").and_then(|d| d.as_u64()) {
+                last_done = Some(d as usize);
+                acc += j["acc"].as_u64().unwrap_or(0) as usize;
+                rej += j["rej"].as_u64().unwrap_or(0) as usize;
+                let r = j["renders"].as_u64().unwrap_or(0) as usize;
+                o.renders += r;
+                o.ok_text += j["texts"].as_u64().unwrap_or(0) as usize;
+                o.errs += j["errs"].as_u64().unwrap_or(0) as usize;
+                o.meta.oracle_checks += r + 1;
+            } else if let Some(f) = j.get("fail").and_then(|f| f.as_str()) {
+                let (hi, k) = (j["h"].as_u64().unwrap() as usize, j["k"].as_u64().unwrap() as usize);
+                o.meta.oracle_fail(
+                    &format!("engine with a history: {f}"),
+                    None,
+                    json!({"history": hist_json(hi, k), "after_last_step": j["after"], "api": j["api"], "target": j["t"]}),
+                );
+            } else if j.get("api").is_some() {
+                last_mark = Some(j);
+            }
+        }
+        let clean = matches!(status, Some(st) if st.success());
+        if clean {
+            break;
+        }
+        // the child died (or hung): the last marker names the call that did it
+        let how = match status { Some(st) => format!("child process died: {st}"), None => "child process timed out after 300 s".to_string() };
+        match last_mark {
+            Some(mk) => {
+                let (hi, k) = (mk["h"].as_u64().unwrap() as usize, mk["k"].as_u64().unwrap() as usize);
+                o.meta.oracle_checks += 1;
+                o.meta.oracle_fail(
+                    &format!("engine with a history: {how} during {}", mk["api"].as_str().unwrap_or("?")),
+                    None,
+                    json!({"history": hist_json(hi, k), "api": mk["api"], "target": mk["t"]}),
+                );
+                from = hi + 1;
+            }
+            None => {
+                o.meta.oracle_fail(&format!("engine with a history: {how} before any call"), None, json!({"from_history": from}));
+                from = last_done.map(|d| d + 1).unwrap_or(from + 1);
+            }
+        }
+    }
+    std::fs::remove_dir_all(&dir).ok();
+    (n, acc, rej)
 }
 
 // ------------------------------------------------------------------ model-side printing
@@ -591,6 +1137,14 @@ fn main() {
         silence_panics();
         child_main();
         return;
+    }
+    {
+        let av: Vec<String> = std::env::args().collect();
+        if av.len() >= 5 && av[1] == "--child-hist" {
+            silence_panics();
+            child_hist_main(&av[2], &av[3], av[4].parse().unwrap_or(0));
+            return;
+        }
     }
     let args = parse_args();
     silence_panics();
@@ -866,6 +1420,11 @@ fn main() {
         wld.push_with_defs(&[reg_def.clone()], term, json!({"set": label, "templates": set, "chunks": n_chunks, "planted_unknown_name": true}), false, None, &["world", "accepted-with-planted-name"]);
     }
 
+    // =========================================================== every expression form in error position
+    let (epm_cells, epm_errs, epm_texts, epm_syntax) = error_position_matrix(&mut o, thorough);
+    // =========================================================== engines with a history
+    let (hist_n, hist_acc, hist_rej) = history_oracle(&mut o, &mut rng, thorough);
+
     // =========================================================== unbounded recursion, child process
     let (rec_n, rec_errs, rec_texts, rec_rejected) = recursion_oracle(&mut o);
 
@@ -879,6 +1438,13 @@ fn main() {
     meta.extra.insert("h1_text".into(), json!(ok_text));
     meta.extra.insert("h1_error_values".into(), json!(errs));
     meta.extra.insert("matrix_cells".into(), json!(cells));
+    meta.extra.insert("error_position_cells".into(), json!(epm_cells));
+    meta.extra.insert("error_position_error_values".into(), json!(epm_errs));
+    meta.extra.insert("error_position_text".into(), json!(epm_texts));
+    meta.extra.insert("error_position_rejected_at_parse".into(), json!(epm_syntax));
+    meta.extra.insert("histories".into(), json!(hist_n));
+    meta.extra.insert("history_batches_accepted".into(), json!(hist_acc));
+    meta.extra.insert("history_batches_rejected".into(), json!(hist_rej));
     meta.extra.insert("recursion_child_renders".into(), json!(rec_n));
     meta.extra.insert("recursion_child_error_values".into(), json!(rec_errs));
     meta.extra.insert("recursion_child_text".into(), json!(rec_texts));
